@@ -78,7 +78,7 @@ def emit_mir_sqlparser():
     the Display code that writes every literal prqlc emits); cached by Cargo.lock hash"""
     lock = open(os.path.join(core.REPO, "Cargo.lock"), "rb").read()
     th = hashlib.sha256(lock).hexdigest()[:16]
-    out = os.path.join(MIR_DIR, f"sqlparser-{th}.mir")
+    out = os.path.join(MIR_DIR, f"sqlparser-v2-{th}.mir")
     if os.path.exists(out):
         return out
     os.makedirs(MIR_DIR, exist_ok=True)
@@ -96,7 +96,7 @@ def emit_mir_sqlparser():
     fs = glob.glob(os.path.join(tgt, "debug", "deps", "sqlparser-*.mir"))
     if r.returncode != 0 or not fs:
         raise core.EngineError("MIR emission (sqlparser) failed:\n" + r.stdout[-2000:])
-    keep = re.compile(r"^(fn|const) (ast::value::|escape_\w+|<impl at [^>]*src/ast/value\.rs)")
+    keep = re.compile(r"^(fn|const) (ast::value::|escape_\w+|<impl at [^>]*src/ast/value\.rs|ast::<impl at [^>]*src/ast/mod\.rs:\d+:[^>]*>::(fmt|new|with_quote)(::<[^(]*>)?\(_1: (&(ast::)?Ident\b|char\b|S\b))")
     with open(fs[0]) as fi, open(out + ".tmp", "w") as fo:
         on = False
         for line in fi:
